@@ -105,6 +105,9 @@ func c07Profile(tier string) *eng.Profile {
 		up(core.Call{F: "ZAdd", B: bZ, K: "a", X: 2, V: "va2"}),
 		up(core.Call{F: "ZAdd", B: bZ, K: "", X: 0, V: "ve"}),
 		up(core.Call{F: "ZAdd", B: bZ, K: "c", X: -1, V: "vc"}),
+		up(core.Call{F: "ZAdd", B: bZ, K: "d", X: 0.0625, V: "vd"}, core.Call{F: "ZAdd", B: bZ, K: "e", X: -2.5e-7, V: ""}),
+		// scores that need all 53 bits: neighbours that differ beyond float32 precision
+		up(core.Call{F: "ZAdd", B: bZ, K: "f", X: 16777217, V: "vf"}, core.Call{F: "ZAdd", B: bZ, K: "g", X: 16777216, V: "vg"}, core.Call{F: "ZAdd", B: bZ, K: "h", X: 0.123456789012345, V: "vh"}),
 		up(core.Call{F: "ZRem", B: bZ, K: "a"}),
 		up(core.Call{F: "ZRem", B: bZ, K: ""}),
 		up(core.Call{F: "ZRem", B: bZ, K: "zz"}),
@@ -132,7 +135,8 @@ func c07Profile(tier string) *eng.Profile {
 				core.Call{F: "ZCount", B: bZ, X: s, Y: e, Z: &core.ZOpt{ExcludeStart: true, ExcludeEnd: true}})
 		}
 	}
-	for _, k := range []string{"a", "b", "c", "", "zz"} {
+	qs = append(qs, core.Call{F: "ZRangeByScore", B: bZ, X: 16777216.5, Y: 16777218}, core.Call{F: "ZCount", B: bZ, X: 0.123456789012345, Y: 0.123456789012345})
+	for _, k := range []string{"a", "b", "c", "d", "e", "f", "g", "h", "", "zz"} {
 		qs = append(qs, core.Call{F: "ZRank", B: bZ, K: k}, core.Call{F: "ZRevRank", B: bZ, K: k}, core.Call{F: "ZScore", B: bZ, K: k}, core.Call{F: "ZGetByKey", B: bZ, K: k})
 	}
 	p := &eng.Profile{ID: "C07", Name: "tx-zset", Cfgs: []core.Cfg{{Mode: core.KV, Seg: 100}, {Mode: core.KV, RW: core.M, Start: core.M, Seg: 1000}},
